@@ -115,3 +115,13 @@ prop("C14",
           "(slow/hang sampled in the thorough tier with a one-sided elapsed-time bound). Non-trivial = a status-code sweep with >= 1 hit and "
           ">= 1 miss in a cycle k >= 1, or a traffic case with >= 2 BaseURLs; distinct by hash of the case.",
      quick=dict(shards=2, timeout=400), thorough=dict(shards=16, timeout=1500), assumptions=COMMON)
+
+prop("C13",
+     rule="(1) library: rapid draws contiguous segment grids (6 timescales, 16 segment durations 0.5..10 s incl. 1.5/1.92/2.002/3.84 s and "
+          "alternating pairs, grid phase aligned / with a boundary exactly on the announce instant / random, minutes 0..2.9e7 incl. both sides "
+          "of the 33-bit PTS wrap at minute 1590, N in 1..3) covering 2-4 minutes: every scheduled splice has exactly one carrier whose closed "
+          "interval contains splice-7 s, no unscheduled events; each emsg: id, presentation time, duration and an own parse of the "
+          "splice_info_section (pts mod 2^33, break duration, out_of_network, CRC-32/MPEG-2). (2) HTTP: bundled/generated assets, all video "
+          "segments over 3 minutes with scte35_N: same oracle; no emsg in audio; InbandEventStream on video only; N outside 1..3 rejected "
+          "with 4xx. Non-trivial = a case in which a segment spans a minute start or the announce instant equals a segment boundary.",
+     quick=dict(shards=2, timeout=400), thorough=dict(shards=16, timeout=1500), assumptions=COMMON)
